@@ -43,6 +43,7 @@ type EConn struct {
 
 // EScenario is one world-E run
 type EScenario struct {
+	Fine        bool    `json:"fine_yields,omitempty"` // every larger function entry of the code under test is a preemption point in this run
 	FlushMs     int     `json:"flush_interval_ms"`
 	RecordLimit int     `json:"record_limit"`
 	Conns       []EConn `json:"conns"`
@@ -106,6 +107,9 @@ func genStream(r *simrt.Rand, conn int, kind string, maxBytes int) string {
 }
 
 var ePauses = []int{0, 0, 0, 0, 1, 50, 250, 499, 500, 501, 750, 999, 1000, 1001, 1500, 2500}
+
+// SetFine switches fine-grained interleaving on for this scenario
+func (s *EScenario) SetFine(v bool) { s.Fine = v }
 
 func (w *worldE) Generate(r *simrt.Rand, profile, tier string) any {
 	s := &EScenario{FlushMs: 500, RecordLimit: 512}
@@ -315,6 +319,7 @@ func (r *eRun) NewSink(clientAddress string, clientNumber base.ClientNumber) bas
 
 func (w *worldE) Run(t *testing.T, profile string, sc any, cfg simrt.Config) *Outcome {
 	s := sc.(*EScenario)
+	cfg.FineYields = s.Fine
 	out := &Outcome{}
 	r := &eRun{s: s, out: out, sinks: map[string]*eSink{}}
 	logger.SetOutput(&r.logbuf)
